@@ -11,7 +11,7 @@
      psend <frame> [cut <k>]                          info  = o | c <st> | n | v <cur> <mx> <st> | s <code>
      reply <to> <ver> <typ> <len> <tag> <info>
      send <c> <typ> <len> <tag> <msgid> <ver> <wait 0|1> <gate 0|1>
-     shutdown <c> | expect | drain | cancel <c> | wait <c> | close | pclose | wconn | state | wfail <k> | newclient
+     shutdown <c> | expect | drain | prest (rest of the frame sent cut before) | cancel <c> | wait <c> | close | pclose | wconn | state | wfail <k> | newclient
    output, one line per script:  obs ; obs ; ... | final-section ; final-section ...
 *)
 open Model
@@ -74,6 +74,7 @@ let parse_step toks =
   | ["state"] -> SState
   | ["wfail"; k] -> SWriteFail (ni k)
   | ["newclient"] -> SNewClient
+  | ["prest"] -> SPeerRest
   | _ -> failwith ("bad step: " ^ String.concat " " toks)
 
 let rec parse_cfg toks =
